@@ -102,6 +102,24 @@ class ExprMixin:
             n.extra = extra
         return n
 
+    def keys_differ(self, a: Node, b: Node) -> bool:
+        """two key expressions provably denote different values (different constants, or tuples that differ in a
+        constant component / in length)"""
+        ka, kb = self.const_key(a), self.const_key(b)
+        if ka is not self.NOKEY and kb is not self.NOKEY:
+            return ka != kb or type(ka) is not type(kb)
+        ta, tb = a.op == "Tuple", b.op == "Tuple"
+        if ta and tb:
+            if any(x.op == "Starred" for x in a.args + b.args):
+                return False
+            if len(a.args) != len(b.args):
+                return True
+            return any(self.keys_differ(x, y) for x, y in zip(a.args, b.args))
+        if (ta and kb is not self.NOKEY and not isinstance(kb, tuple)) or \
+                (tb and ka is not self.NOKEY and not isinstance(ka, tuple)):
+            return True
+        return False
+
     def _dict_union(self, l: Node, r: Node, site, depth=0):
         """l | r for dict values with statically known keys (either side may be selected by a branch)"""
         if depth > 4:
@@ -297,6 +315,16 @@ class ExprMixin:
                 if lhs is not None and all(ident(k_) for k_ in keys_n) and not has_const:
                     res = lhs != "composite" and any(same(lhs, k_) for k_ in keys_n)
                     return self.const(res if opname == "In" else not res, site)
+        if opname in ("In", "NotIn"):
+            # membership of a symbolic key (e.g. a tuple holding a configuration value) in a dict whose keys are known
+            # expressions: decided when a key is the same value, or every key provably differs
+            c = r.args[0] if r.op == "DictKeys" else r
+            if c.op == "Dict" and not any(k[0] == "**" for k in c.attr) and self.const_key(l) is self.NOKEY:
+                cands = [self.key_node(kd[1]) if kd[0] == "k" else c.args[i] for kd, i in self._dict_key_slots(c)]
+                if any(self.g.vn(k_) == self.g.vn(l) for k_ in cands):
+                    return self.const(opname == "In", site)
+                if all(self.keys_differ(l, k_) for k_ in cands):
+                    return self.const(opname == "NotIn", site)
         if opname in ("Eq", "NotEq") and l.op == "Const" and isinstance(l.attr, str) and \
                 r.op in ("Tuple", "List"):
             return self.const(opname == "NotEq", site)
@@ -549,6 +577,10 @@ class ExprMixin:
         base = self.res(base_id, st)
         if base.op == "Phi" and self.const_key(idx) is not self.NOKEY:
             base = self.select_by_pc(base, st)
+        if base.op == "Scatter" and base.attr is None and idx.op == "Tuple" and \
+                any(a.op == "Const" and isinstance(a.attr, str) for a in idx.args) and \
+                self.g.vn(base.args[1]) == self.g.vn(idx):
+            return base.args[2]         # d[key] = v ; d[key]  with a record-like key: the value just stored
         if base.op == "Obj" and base.extra and "tuple_fields" in base.extra and idx.op == "Const" and \
                 isinstance(idx.attr, int) and not isinstance(idx.attr, bool):
             tf = base.extra["tuple_fields"]
@@ -572,6 +604,23 @@ class ExprMixin:
             if not any(k[0] in ("**", "n") for k in base.attr):
                 self.effect("keyerror", site, st, fr, key=ik)
                 return self.unknown(f"missing-key:{ik!r}", site)
+        if base.op == "Dict" and self.const_key(idx) is self.NOKEY and idx.op not in IDENTITY_OPS and \
+                idx.op in ("Tuple", "Cfg", "Input", "FStr", "BinOp") and not any(k[0] == "**" for k in base.attr):
+            # symbolic key: the entry stored under the same value; else the entries it could equal, newest first
+            slots = [(kd, i) for kd, i in self._dict_key_slots(base)]
+            for kd, i in reversed(slots):
+                if kd[0] == "n" and self.g.vn(base.args[i]) == self.g.vn(idx):
+                    return base.args[i + 1]
+            out = None
+            for kd, i in slots:
+                kn = self.key_node(kd[1]) if kd[0] == "k" else base.args[i]
+                vn_ = base.args[i] if kd[0] == "k" else base.args[i + 1]
+                if self.keys_differ(idx, kn):
+                    continue
+                eq = self.mk("Compare", (idx, kn), "Eq", site)
+                out = self.phi(eq, vn_, out if out is not None else self.unknown("missing-key", site), site)
+            if out is not None:
+                return out
         if base.op == "Dict" and idx.op in IDENTITY_OPS and any(k[0] == "n" for k in base.attr) and \
                 not any(k[0] == "**" for k in base.attr):
             hit, i = None, 0
